@@ -1,0 +1,174 @@
+//go:build verif
+// +build verif
+
+package s3mem
+
+// State tracing for trace validation (build tag "verif" only).
+//
+// Every mutating Backend method calls one of the trace functions while it
+// still holds db.lock, after the change: one NDJSON event per call with the
+// operation, its arguments and the resulting abstract state of what it
+// touched (the bucket's existence and versioning status, the key's complete
+// version stack in creation order). Events go to
+// $VERIF_S3MEM_TRACE/<pid>.ndjson; nothing happens when the variable is unset.
+
+import (
+	"bufio"
+	"encoding/hex"
+	"encoding/json"
+	"fmt"
+	"os"
+	"path/filepath"
+	"sort"
+	"sync"
+
+	"github.com/johannesboyne/gofakes3"
+)
+
+var verifTrace struct {
+	mu    sync.Mutex
+	once  sync.Once
+	w     *bufio.Writer
+	f     *os.File
+	insts map[*Backend]int
+	seq   map[*Backend]int
+}
+
+type verifVersion struct {
+	Vid  string `json:"vid"`
+	Nul  bool   `json:"nul"`
+	Kind string `json:"kind"`
+	Body string `json:"body"`
+}
+
+type verifEvent struct {
+	Inst   int            `json:"i"`
+	Seq    int            `json:"n"`
+	Op     string         `json:"op"`
+	Bucket string         `json:"b"`
+	Key    []int          `json:"k"`
+	Args   []string       `json:"vids"` // version-id arguments, in call order ("" = a plain delete)
+	Exists bool           `json:"exists"`
+	Ver    string         `json:"ver"`
+	Stack  []verifVersion `json:"stack"`
+}
+
+func verifOpen() {
+	dir := os.Getenv("VERIF_S3MEM_TRACE")
+	if dir == "" {
+		return
+	}
+	f, err := os.OpenFile(filepath.Join(dir, fmt.Sprintf("%d.ndjson", os.Getpid())), os.O_CREATE|os.O_WRONLY|os.O_APPEND, 0644)
+	if err != nil {
+		return
+	}
+	verifTrace.f = f
+	verifTrace.w = bufio.NewWriter(f)
+	verifTrace.insts = map[*Backend]int{}
+	verifTrace.seq = map[*Backend]int{}
+}
+
+// verifStack projects one key: archived versions in creation order (version
+// ids ascend with creation), the current version last.
+func verifStack(b *bucket, name string) []verifVersion {
+	out := []verifVersion{}
+	obj := b.object(name)
+	if obj == nil {
+		return out
+	}
+	conv := func(d *bucketData) verifVersion {
+		v := verifVersion{Vid: string(d.versionID), Nul: d.nullVersion, Kind: "obj", Body: hex.EncodeToString(d.hash)}
+		if d.nullVersion {
+			v.Vid = "null"
+		}
+		if d.deleteMarker {
+			v.Kind, v.Body = "dm", ""
+		}
+		return v
+	}
+	if obj.versions != nil {
+		var olds []*bucketData
+		it := obj.versions.Iterator()
+		for it.Next() {
+			olds = append(olds, it.Value().(*bucketData))
+		}
+		it.Close()
+		sort.SliceStable(olds, func(i, j int) bool { return olds[i].versionID < olds[j].versionID })
+		for _, d := range olds {
+			out = append(out, conv(d))
+		}
+	}
+	if obj.data != nil {
+		out = append(out, conv(obj.data))
+	}
+	return out
+}
+
+// (db.lock is held by the caller)
+func (db *Backend) verifEmit(op, bucketName, key string, args []string, withKey bool) {
+	verifTrace.once.Do(verifOpen)
+	if verifTrace.w == nil {
+		return
+	}
+	ev := verifEvent{Op: op, Bucket: bucketName, Args: args, Key: []int{}, Stack: []verifVersion{}, Ver: "None"}
+	if ev.Args == nil {
+		ev.Args = []string{}
+	}
+	if b := db.buckets[bucketName]; b != nil {
+		ev.Exists = true
+		switch b.versioning {
+		case gofakes3.VersioningEnabled:
+			ev.Ver = "Enabled"
+		case gofakes3.VersioningSuspended:
+			ev.Ver = "Suspended"
+		}
+		if withKey {
+			ev.Stack = verifStack(b, key)
+		}
+	}
+	for i := 0; i < len(key); i++ {
+		ev.Key = append(ev.Key, int(key[i]))
+	}
+	verifTrace.mu.Lock()
+	defer verifTrace.mu.Unlock()
+	if _, ok := verifTrace.insts[db]; !ok {
+		verifTrace.insts[db] = len(verifTrace.insts) + 1
+	}
+	verifTrace.seq[db]++
+	ev.Inst, ev.Seq = verifTrace.insts[db], verifTrace.seq[db]
+	line, _ := json.Marshal(ev)
+	verifTrace.w.Write(line)
+	verifTrace.w.WriteByte('\n')
+	verifTrace.w.Flush()
+}
+
+func (db *Backend) traceBucket(op, bucketName string) { db.verifEmit(op, bucketName, "", nil, false) }
+
+func (db *Backend) traceKey(op, bucketName, key, versionID string) {
+	db.verifEmit(op, bucketName, key, []string{versionID}, true)
+}
+
+// one event per distinct key (the final state of each)
+func (db *Backend) traceKeys(op, bucketName string, keys []string) {
+	ids := make([]gofakes3.ObjectID, len(keys))
+	for i, k := range keys {
+		ids[i].Key = k
+	}
+	db.traceVersions(op, bucketName, ids)
+}
+
+// one event per distinct key, carrying that key's deletes in call order and
+// the final state of the key
+func (db *Backend) traceVersions(op, bucketName string, objects []gofakes3.ObjectID) {
+	var order []string
+	args := map[string][]string{}
+	for _, o := range objects {
+		if _, ok := args[o.Key]; !ok {
+			order = append(order, o.Key)
+		}
+		args[o.Key] = append(args[o.Key], o.VersionID)
+	}
+	for _, k := range order {
+		db.verifEmit(op, bucketName, k, args[k], true)
+	}
+}
